@@ -12,7 +12,7 @@ import floatbase
 PROP = "C16"
 META = dict(
     technique="Coq proof of closed forms for the node models + coqc-evaluated model vs real Node::process correspondence (bit-exact f32)",
-    text="Machine-checked (Coq 8.16.1) closed forms for models of the dasp_graph nodes written after the source: Sum (per channel and sample, fold of `+` from 0.0 over the inputs that have the channel, in input order; silence without inputs), SumBuffers (every output = fold over all buffers of all inputs), Pass (first input's buffers onto the outputs, surplus outputs and the no-input case untouched), Delay (per channel the output stream over any number of calls = ring content then input stream; from C06's delay-line theorem), the dyn Signal node (successive frames de-interleaved, LEN frames per call, continuing across calls, min(CHANNELS, outputs) channels) and GraphNode (copy-in, inner processing, copy-out), for every input count, buffer count, buffer length and call count; no panic, no out-of-bounds unchecked access. The models are tied to the crate by running them inside coqc on the same cases as the real nodes under every wrapper type (Box, &mut, BoxedNode, BoxedNodeSend, dyn Fn, dyn FnMut, fn pointer, nested GraphNode over Graph and StableGraph) and comparing all output buffers bit for bit.",
+    text="Machine-checked (Coq 8.16.1) closed forms for models of the dasp_graph nodes written after the source: Sum (per channel and sample, fold of `+` from 0.0 over the inputs that have the channel, in input order; silence without inputs), SumBuffers (every output = fold over all buffers of all inputs), Pass (first input's buffers onto the outputs, surplus outputs and the no-input case untouched), Delay (per channel the output stream over any number of calls = ring content then input stream; from C06's delay-line theorem), the dyn Signal node (successive frames de-interleaved, LEN frames per call, continuing across calls, min(CHANNELS, outputs) channels) and GraphNode (copy-in, inner processing, copy-out), for every input count, buffer count, buffer length and call count; no panic, no out-of-bounds unchecked access. The models are tied to the crate by running them inside coqc on the same cases as the real nodes under every wrapper type (Box, &mut, BoxedNode, BoxedNodeSend, dyn Fn, dyn FnMut, fn pointer, nested GraphNode over Graph and StableGraph) and comparing all output buffers bit for bit, together with the number of Signal::next calls made so far (signals are instrumented), after every call of histories in which the node's buffer list (NodeData::buffers) is also taken away, restored and resized between calls (zero-buffer calls included).",
     note="Trusted: Coq kernel; the hand-written models (Buffer as list with a length hypothesis, float `+` as an abstract operation in the theorems and Flocq binary32 in the run); Processor::process on the inner star graph of a GraphNode is modelled directly (processing order is C09's subject); wrapper equivalence is established by correspondence only. Axioms: none except the Coq reals in the one theorem about real-number sums.",
     design="6/C16")
 HEADER = "From Dasp Require Import Graph.NodesRunU. Require Import Uint63."
@@ -154,10 +154,10 @@ def build(item, ops=None):
         it["ops"] = ops
     calls = it["ops"]
     secs = [it["wrappers"], spec_tokens(it["spec"]), [len(it["out0"])] + [v for b in it["out0"] for v in b], it["shape"]]
-    for call in calls:
-        secs.append([v for inp in call for b in inp for v in b])
+    for op, arg, call in calls:
+        secs.append([op, arg] + [v for inp in call for b in inp for v in b])
     it["line"] = " | ".join(" ".join(str(int(t)) for t in sec) for sec in secs)
-    calls_coq = "[" + ";".join("[" + ";".join(zll(inp) for inp in call) + "]" for call in calls) + "]"
+    calls_coq = "[" + ";".join(f"(({op},{arg}),[" + ";".join(zll(inp) for inp in call) + "])" for op, arg, call in calls) + "]"
     it["coq"] = u(f"UCase {spec_coq(it['spec'])} {zll(it['out0'])} {calls_coq}")
     return it
 
@@ -292,9 +292,37 @@ def rand_case(r, kind, tier):
         else:
             spec = rand_graph(r, r.choice(["pass", "pass", "graph"]), ncalls)
     out0 = [rand_buf(r, flavour) for _ in range(nout)]
-    calls = [[[rand_buf(r, flavour) for _ in range(nb)] for nb in shape] for _ in range(ncalls)]
+    calls = [[0, 0, [[rand_buf(r, flavour) for _ in range(nb)] for nb in shape]] for _ in range(ncalls)]
+    # the owner of the graph changes the node's buffer list between calls (NodeData::buffers is a pub Vec):
+    # taken away for one call and put back, or resized (0 .. 5 buffers)
+    if ncalls >= 2 and r.chance(2, 5):
+        for c in calls[(0 if r.chance(1, 4) else 1):]:
+            k = r.below(6)
+            if k == 0:
+                c[0] = 2
+            elif k <= 2:
+                c[0], c[1] = 1, r.choice([0, 0, 1, 2, 3, 4, 5])
     wrappers = rand_wrappers(r)
     return dict(kind=kind, wrappers=wrappers, spec=spec, out0=out0, shape=shape, ops=calls)
+
+
+def sig_zero_case(r, pattern):
+    """a signal node whose buffer list is empty during some calls (pattern: one op per call)"""
+    ncalls = len(pattern)
+    spec = rand_sig(r, ncalls)
+    if r.chance(1, 3):
+        spec = ("graph", r.below(2), [], [], [fb(0.0)] * r.range(0, 2), rand_wrappers(r, 2), spec)
+    nout = r.range(1, 4) if pattern[0] != "zero" else 0
+    out0 = [rand_buf(r, "any") for _ in range(nout)]
+    calls = []
+    for p in pattern:
+        op = {"keep": [0, 0], "take": [2, 0], "zero": [0, 0]}.get(p) or [1, int(p)]
+        calls.append(op + [[]])
+    return dict(kind="sigzero", wrappers=rand_wrappers(r), spec=spec, out0=out0, shape=[], ops=calls)
+
+
+SIG_ZERO_PATTERNS = [["keep", "take", "keep", "keep"], ["take", "keep"], ["keep", "0", "2", "keep"], ["zero", "zero", "2", "keep"],
+                     ["keep", "take", "take", "keep"], ["keep", "0", "0", "3"], ["take", "take", "keep"], ["zero", "1"]]
 
 
 def gen_cases(rng, tier):
@@ -309,6 +337,8 @@ def gen_cases(rng, tier):
             c = rand_case(r, kind, tier)
             c["wrappers"] = w
             items.append(build(c))
+    for i in range(64 if tier == "quick" else 400):
+        items.append(build(sig_zero_case(rng.fork(f"sigzero{i}"), SIG_ZERO_PATTERNS[i % len(SIG_ZERO_PATTERNS)])))
     for kind, n in mix.items():
         for i in range(n):
             items.append(build(rand_case(rng.fork(f"{kind}{i}"), kind, tier)))
@@ -323,7 +353,11 @@ def nontrivial(it):
     mismatched = any(nb != nout for nb in it["shape"])
     if it["spec"][0] == "delay":
         mismatched = mismatched or len(it["spec"][2]) != nout
-    return mismatched or len(it["shape"]) >= 2 or (spec_stateful(it["spec"]) and len(it["ops"]) >= 2)
+    return mismatched or len(it["shape"]) >= 2 or (spec_stateful(it["spec"]) and len(it["ops"]) >= 2) or buffer_ops(it)
+
+
+def buffer_ops(it):
+    return [c[0] for c in it["ops"] if c[0] != 0]
 
 
 def load_corpus():
@@ -394,7 +428,7 @@ def main(rep, tier, seed):
 def finish(rep, info, items, outl, fbinfo, extra, bad=()):
     th = info.get("theorems", [])
     hist = {"node": {}, "wrapper": {}, "inputs": {}, "buffers_per_input": {}, "outputs": {}, "calls": {}, "delay_ring_len": {},
-            "signal_channels": {}}
+            "signal_channels": {}, "buffer_list_ops": {}}
 
     def bump(h, k):
         hist[h][str(k)] = hist[h].get(str(k), 0) + 1
@@ -412,6 +446,12 @@ def finish(rep, info, items, outl, fbinfo, extra, bad=()):
             bump("buffers_per_input", nb)
         bump("outputs", len(it["out0"]))
         bump("calls", len(it["ops"]))
+        for c in it["ops"]:
+            bump("buffer_list_ops", {0: "keep", 1: "resize", 2: "take+restore"}[c[0]])
+        if buffer_ops(it):
+            bump("buffer_list_ops", "cases_with_a_change")
+        if any(c[0] == 2 or (c[0] == 1 and c[1] == 0) for c in it["ops"]) or not it["out0"]:
+            bump("buffer_list_ops", "cases_with_a_zero_buffer_call")
         s = it["spec"]
         while s[0] == "graph":
             s = s[6]
@@ -434,7 +474,7 @@ def finish(rep, info, items, outl, fbinfo, extra, bad=()):
             "modelled, not verified: Buffer as a list with a length hypothesis; f32 `+` abstract in the theorems, Flocq binary32 (validated against rustc by floatbase) in the run; Signal::next as a state-passing function; Processor::process on a GraphNode's inner graph abstract in the theorem and a star-shaped instance in the run; wrappers are the identity in the model (their equivalence is tested, not proved)"],
         "theorems": th, "axioms_reported": info.get("axioms", []),
         "evaluations": len(outl), "distinct_nontrivial": nontriv,
-        "rule": "non-trivial = buffer counts that do not all match the output count (zip truncation / missing channel / surplus output), or >= 2 inputs, or >= 2 consecutive calls of a stateful node (delay, signal, graph around them)",
+        "rule": "non-trivial = buffer counts that do not all match the output count (zip truncation / missing channel / surplus output), or >= 2 inputs, or >= 2 consecutive calls of a stateful node (delay, signal, graph around them), or the node's buffer list is changed between calls (taken away and restored, resized)",
         "samples": samples, "input_distribution": dist, "disagreements": len(bad),
         "explanation": "theorems: closed forms of every node's process for all input/buffer/call counts; tie: the model's executable definitions run by coqc on the same cases as the real nodes (all wrapper types), every output buffer after every call compared bit for bit (f32 sums in the code's order)",
     }
